@@ -67,6 +67,9 @@ def findlabels(code, opc):
                 jump_offset = offset + 2 + arg2
                 if opc.version_tuple >= (3,13):
                     jump_offset += 2 * _get_cache_size_313(opc.opname[op])
+                elif opc.version_tuple >= (3, 12) and opc.opname[op] in ("FOR_ITER", "SEND"):
+                    # 3.12: these two jumps are followed by one inline cache entry
+                    jump_offset += 2
             elif op in opc.JABS_OPS:
                 jump_offset = arg * 2 if opc.version_tuple >= (3, 10) else arg
             else:
